@@ -311,3 +311,25 @@ def c10_classes(ctx, cls, kind):
             if label == "neutral" and kind != "series":
                 got = corr.correct_array(raw.copy())
                 ctx.ensure(f"neutral parameters leave pixel values unchanged ({cls})", got.shape == raw.shape and bool(np.allclose(np.asarray(got, dtype=float), raw.astype(float), atol=1e-12)))
+
+
+@ob("C10.rotation_neutral", cases=[dict(shape=s, payload=p) for s in [(3, 5), (5, 3), (2, 3, 7), (4, 3, 6), (5, 2, 4), (3, 3, 3), (1, 2, 3)] for p in ("scalar", "vector")],
+    mods=["darsia.corrections.shape.rotation"], funcs=["darsia.corrections.shape.rotation:RotationCorrection.correct_array", "darsia.corrections.shape.rotation:RotationCorrection.__init__"],
+    samples=(1, 2),
+    cite="a correction configured with neutral parameters (zero angle ...) leaves pixel values unchanged",
+    note="token data: a zero-angle RotationCorrection in 2-D and 3-D returns every voxel where it was, for non-square / non-cubic arrays in every axis order (extent of the third axis "
+         "larger or smaller than the second), scalar and multi-component; the argument is not written (after seed C10_i: a clip bound of the 3-D branch taken from the wrong axis)")
+def c10_rotation_neutral(ctx, shape, payload):
+    dim = len(shape)
+    full = tuple(shape) + ((2,) if payload == "vector" else ())
+    arr = ctx.array("a", full)
+    keep = arr.copy()
+    anchor = [n // 2 for n in shape]
+    rot = darsia.RotationCorrection(anchor=anchor, rotations=[0.0]) if dim == 2 else darsia.RotationCorrection(anchor=anchor, rotations=[(0.0, "x"), (0.0, "z")])
+    out = rot.correct_array(arr)
+    tok = lambda x, y: x.shape == y.shape and (all(p is q for p, q in zip(x.flat, y.flat)) if ctx.sym else bool(np.all(x == y)))
+    ctx.ensure("zero rotation: every voxel (and component) stays where it was", tok(np.asarray(out), keep))
+    ctx.ensure("the array handed in is not written", tok(arr, keep))
+    # a different anchor does not matter for the neutral rotation
+    rot2 = darsia.RotationCorrection(anchor=[0] * dim, rotations=[0.0]) if dim == 2 else darsia.RotationCorrection(anchor=[0] * dim, rotations=[(0.0, "y")])
+    ctx.ensure("zero rotation about another anchor / axis: unchanged as well", tok(np.asarray(rot2.correct_array(arr)), keep))
